@@ -147,6 +147,14 @@ def check(kind, case, rec):
                   and np.allclose(rs.dV, rb.dV * s_ ** (dim - 1), rtol=0, atol=1e-12 * s_ ** (dim - 1) * float(np.abs(rb.dV).max()))
                   and np.allclose(rs.normals, nrm, rtol=0, atol=1e-11))
         rec.require("copy-on-scaled-points-scales-the-area", scaled, {"s": s_, "dV-sum": [float(np.sum(rs.dV)), float(np.sum(rb.dV))]})
+        # the points of a copy's own mesh moved in place, followed by a plain reload() without arguments
+        rp = rb.copy()
+        rp.mesh.points[:] = np.asarray(rb.mesh.points) * s_
+        rp.reload()
+        moved_ok = (np.allclose(rp.dA, dA * s_ ** (dim - 1), rtol=0, atol=1e-12 * s_ ** (dim - 1) * float(np.abs(dA).max()))
+                    and np.allclose(rp.dV, rb.dV * s_ ** (dim - 1), rtol=0, atol=1e-12 * s_ ** (dim - 1) * float(np.abs(rb.dV).max()))
+                    and np.allclose(rp.normals, nrm, rtol=0, atol=1e-11))
+        rec.require("plain-reload-after-moving-the-points-in-place", moved_ok, {"s": s_})
     rec.require("dV-positive", bool((np.asarray(rb.dV) > 0).all()))
     ftype = {"quad": "line", "hexahedron": "quad", "quad8": "line3", "quad9": "line3"}.get(mesh.cell_type)
     if ftype is not None:  # mesh_faces() knows these four cell types
